@@ -30,6 +30,7 @@ REPO = Path(os.environ.get("VERIF_REPO", "/repo")).resolve()
 LEAN = VERIF / "lean"
 DRIVER = LEAN / ".lake" / "build" / "bin" / "driver"
 GUARD = "ASYNC_UPNP_CLIENT_VERIF"
+DRIVER_TIMEOUT = 1500
 STD_AXIOMS = {"propext", "Classical.choice", "Quot.sound"}
 FORBIDDEN = re.compile(
     r"\b(sorry|admit|native_decide|bv_decide|implemented_by|unsafe|maxHeartbeats\s+0)\b|^\s*axiom\s", re.M
@@ -241,7 +242,7 @@ def run_driver(prop: str, cases: List[Case], work: Path) -> Dict[str, Verdict]:
         raise Infra("driver binary missing")
     text = "\n".join("\n".join([f"case {c.cid}", *c.lines, "end"]) for c in cases) + "\n"
     (work / "ops.txt").write_text(text)
-    p = subprocess.run([str(DRIVER), prop], input=text, capture_output=True, text=True, timeout=1800)
+    p = subprocess.run([str(DRIVER), prop], input=text, capture_output=True, text=True, timeout=DRIVER_TIMEOUT)
     (work / "driver.out").write_text(p.stdout + p.stderr)
     verdicts: Dict[str, Verdict] = {}
     done = None
